@@ -126,7 +126,8 @@ _installed = [False]
 
 def _install():
     if not _installed[0]:
-        sched.install([wfx])
+        import neuropixel, ibldsp.utils, ibldsp.fourier, ibldsp.voltage, ibldsp.waveform_extraction
+        sched.install([wfx], watch=[spikeglx, neuropixel, ibldsp.utils, ibldsp.fourier, ibldsp.voltage, ibldsp.waveform_extraction])
         session.pin_dependencies()
         _installed[0] = True
 
@@ -221,7 +222,7 @@ def _run(plan, base):
                                                                                    "victim": plan["victim"], "order": plan["order"], "trace": plan.get("trace")})):
             od = base / f"out_{tag}"
             od.mkdir()
-            res = _extract(plan, src, od, chunk, n_jobs, schedule, base / f"scratch_{tag}")
+            res = _extract(plan, src, od, chunk, n_jobs, schedule, base / "scratch")
             stats["steps"] += sum(t[1] for t in res["trace"])
             if res["err"]:
                 e, tb = res["err"]
@@ -265,13 +266,21 @@ def _prelude(plan, base, probe, stats, sigbase):
     p2 = dict(plan, spikes=[list(x) for x in sp], ns=ns, max_wf=8, fixture=plan["prelude"])
     od = base / "out_prelude"
     od.mkdir()
-    res = _extract(p2, binf, od, 1000, 1, None, base / "scratch_prelude")
+    src = binf
+    if plan["form"] == "cbin":
+        s2 = spikeglx.Reader(binf)
+        src = s2.compress_file(keep_original=False, chunk_duration=0.1, n_threads=1)
+        s2.close()
+    # same worker count as the main extraction (reused workers keep their process-local state) and
+    # the same scratch directory / file name as the main extractions
+    nj = plan["n_jobs"]
+    res = _extract(p2, src, od, 1000, nj, None if nj == 1 else {"seed": plan["sched_seed"] ^ 5, "p_switch": plan["p_switch"]}, base / "scratch")
     if res["err"]:
         e, tb = res["err"]
         raise Violation("C13.W1", f"raises:{type(e).__name__}", f"prelude extract_wfs_cbin raised {type(e).__name__}: {e}")
     spa = np.array(p2["spikes"], dtype=np.int64).reshape(-1, 3)
     valid = (spa[:, 0] > TROUGH) & (spa[:, 0] < ns - (LENGTH - TROUGH))
-    _check_files(p2, "prelude", _load(od), V, neigh, spa, valid, ns, nap, od, res, 1000, 1, probe, stats, sigbase)
+    _check_files(p2, "prelude", _load(od), V, neigh, spa, valid, ns, nap, od, res, 1000, nj, probe, stats, sigbase)
     probe("earlier_extraction_other_geometry_same_process")
 
 
